@@ -4,3 +4,4 @@ import Adc.Steps
 import Adc.Wick
 import Adc.Indices
 import Adc.Unitary
+import Adc.Symmetry
